@@ -158,6 +158,105 @@ static ABT_pool mk_user_pool(void)
     UPQ[nupq++].pool = p;
     return p;
 }
+/* ---- the same queue behind the legacy ABT_pool_def interface, which also has the deprecated
+ * is_in_pool / remove operations that ABT_thread_yield_to needs.  remove may be told to fail
+ * (it returns an error code by design) ---- */
+static int lp_fail_remove;
+static ABT_unit lp_create(ABT_thread thread)
+{
+    unode *u = (unode *)calloc(1, sizeof *u);
+    u->th = thread;
+    u->pool = -1; /* the legacy callback is not told the pool: learnt at the first push */
+    up_creates++;
+    return (ABT_unit)u;
+}
+static void lp_free(ABT_unit *unit)
+{
+    unode *u = (unode *)*unit;
+    SIM_CHECK(!u->queued, "upool:free-queued-unit", "u_free called for a unit that is still queued in the pool");
+    up_frees++;
+    free(u);
+    *unit = ABT_UNIT_NULL;
+}
+static ABT_bool lp_is_in_pool(ABT_unit unit)
+{
+    return ((unode *)unit)->queued ? ABT_TRUE : ABT_FALSE;
+}
+static int lp_init(ABT_pool pool, ABT_pool_config cfg)
+{
+    (void)pool;
+    (void)cfg;
+    return ABT_SUCCESS;
+}
+static void lp_push(ABT_pool pool, ABT_unit unit)
+{
+    unode *u = (unode *)unit;
+    if (u->pool < 0)
+        u->pool = upq_index(pool);
+    up_push(pool, unit, 0);
+}
+static ABT_unit lp_pop(ABT_pool pool)
+{
+    upq *q = &UPQ[upq_index(pool)];
+    unode *u = q->head;
+    if (!u)
+        return ABT_UNIT_NULL;
+    (void)up_pop(pool, 0);
+    return (ABT_unit)u;
+}
+static int lp_remove(ABT_pool pool, ABT_unit unit)
+{
+    upq *q = &UPQ[upq_index(pool)];
+    unode *u = (unode *)unit;
+    if (!u->queued)
+        return ABT_ERR_POOL;
+    if (lp_fail_remove && sim_rand_n(SIM_RS_CHAOS, 2) == 0)
+        return ABT_ERR_POOL; /* the unit stays where it is */
+    unode **pp = &q->head, *prev = NULL;
+    while (*pp && *pp != u) {
+        prev = *pp;
+        pp = &(*pp)->next;
+    }
+    SIM_CHECK(*pp == u, "upool:remove-unknown-unit", "remove called for a unit that is not in this pool");
+    *pp = u->next;
+    if (q->tail == u)
+        q->tail = prev;
+    q->n--;
+    u->queued = 0;
+    u->next = NULL;
+    return ABT_SUCCESS;
+}
+ABT_pool wl_make_legacy_pool(int failing_remove)
+{
+    ABT_pool_def def;
+    ABT_pool p;
+    memset(&def, 0, sizeof def);
+    def.access = ABT_POOL_ACCESS_MPMC;
+    def.u_is_in_pool = lp_is_in_pool;
+    def.u_create_from_thread = lp_create;
+    def.u_free = lp_free;
+    def.p_init = lp_init;
+    def.p_get_size = up_get_size;
+    def.p_push = lp_push;
+    def.p_pop = lp_pop;
+    def.p_remove = lp_remove;
+    lp_fail_remove = failing_remove;
+    ABT_OK(ABT_pool_create(&def, ABT_POOL_CONFIG_NULL, &p));
+    SIM_CHECK(nupq < WL_MAX_POOLS, "infra:too-many-user-pools", "user pool table full");
+    memset(&UPQ[nupq], 0, sizeof UPQ[0]);
+    UPQ[nupq++].pool = p;
+    return p;
+}
+void wl_user_pools_reset(void)
+{
+    nupq = 0;
+    up_creates = up_frees = 0;
+}
+void wl_user_pools_check(void)
+{
+    SIM_CHECK(up_creates == up_frees, "upool:unit-leaked", "user pools: create_unit was called %ld times, free_unit %ld times by the end of ABT_finalize", up_creates, up_frees);
+}
+
 int wl_pool_is_user(ABT_pool pool)
 {
     for (int i = 0; i < nupq; i++)
